@@ -46,6 +46,13 @@ def val_rows(vc, spec):
     return rows
 
 
+def collection_rows(family, vcs):
+    rows = []
+    if family == "dict" and "pl" in vcs and any(c != "pl" for c in vcs):
+        rows.append(("val:mixture-of-polars-and-other-containers", (TypeError,)))
+    return rows
+
+
 def match(rows, exc):
     for name, types in rows:
         if isinstance(exc, types):
